@@ -224,6 +224,58 @@ def consume_pairing(ctx, repo, rule):
     ctx.ob(rule, "async_handled::calls-callback-once", len(cb) == 1 and ga.loop_of(cb[0]) is None, "async_handled does not invoke the callback exactly once", ahd.loc)
 
 
+def message_sequence_model(ctx, repo, rule):
+    """Both stacks' partial-update path end to end by interpretation: the long-lived handler (built by its constructor,
+    wired to the connection class's own apply callback bound to a model connection) is driven the way the consume loop /
+    the engine drives it - handle, handled, handle, handled ... - with messages made by the library's own builder.
+    Observed: what is installed into the structure, in which order, and what is acknowledged."""
+    from ..absint import BoundMethod, ClassRef, Interp, Native, Obj, PyRaise, Undecided
+    from . import c04
+    sender = ("10.0.0.7", 10022)
+    scripts = (
+        ("two-messages", [[(10, b"\x00\x01"), (12, b"\x00\x02")], [(10, b"\x00\x03")]]),
+        ("empty-message-in-between", [[(20, b"\xaa\xbb")], [], [(20, b"\xcc\xdd")]]),
+        ("same-position-within-and-across", [[(30, b"\x00\x01"), (30, b"\x00\x02")], [(30, b"\x00\x02")], [(30, b"\x00\x01")]]),
+        ("byte-change-then-word", [[(700, b"\x5a")], [(700, b"\x00\x5b")]]),
+    )
+    n = 0
+    for stack, hname, hmeth, hdone, cname, cb in (("awaitable", ASYNC_H, "async_handle", "async_handled", "GeckoAsyncSpa", "_async_on_partial_status_update"),
+                                                  ("blocking", SYNC_H, "handle", "handled", "GeckoSpa", "_on_partial_status_update")):
+        for key, msgs in scripts:
+            it = Interp(repo, max_depth=12)
+            installed, acks = [], []
+            struct_ = Obj(None, {"replace_status_block_segment": Native(lambda a, k: installed.append((a[0], bytes(a[1]) if isinstance(a[1], (bytes, bytearray)) else a[1])), "install")}, name="structure")
+            conn = Obj(repo.cls(cname), {"struct": struct_}, name=cname)
+
+            def qs(a, k):
+                acks.append(a[0])
+            link = Obj(None, {"queue_send": Native(qs, "queue_send"), "get_and_increment_sequence_counter": Native(lambda a, k: 7 if (a and a[0] is False) else 200, "counter")}, name="link")
+            try:
+                kw = {"async_on_handled" if stack == "awaitable" else "on_handled": BoundMethod(conn, repo.method(cname, cb))}
+                h = it.apply(ClassRef(repo.cls(hname)), [link], kw)
+                for changes in msgs:
+                    msg = it.call(repo.method(SYNC_H, "report_changes"), None, [link, list(changes)])
+                    wire = c04.wire_of(msg)
+                    it.steps = 0
+                    it.call(repo.method(hname, hmeth), h, [wire, sender])
+                    it.steps = 0
+                    it.call(repo.method(hname, hdone), h, [sender])
+                got = list(installed)
+            except PyRaise as e:
+                got = f"raises {e.what}"
+            except Undecided as e:
+                raise AnalysisError(f"{hname} message sequence ({key}): {e}")
+            want = [(p_, bytes(d_)) for m_ in msgs for p_, d_ in m_]
+            n += 1
+            fi = repo.method(hname, hmeth)
+            ctx.ob(rule, f"{stack}::{key}::applied-once-in-arrival-order", got == want,
+                   f"{stack} stack, partial updates {msgs} delivered one after the other to the long-lived handler: the structure receives {got}, expected each change once, in arrival order: {want}",
+                   fi.loc, sample={"rule": rule, "stack": stack, "script": key, "installed": str(got)[:200]})
+            ctx.ob(rule, f"{stack}::{key}::one-acknowledgement-per-message", len(acks) == len(msgs),
+                   f"{stack} stack: {len(acks)} acknowledgement(s) queued for {len(msgs)} partial-update messages", fi.loc)
+    ctx.floor(rule, "partial-update message sequences interpreted", n, 8)
+
+
 def check(ctx):
     repo = Repo()
     ctx.rule("R1", "per-message reset (async): self.changes = [] dominates the decode loop on the STATP path only; no other writer")
@@ -266,4 +318,6 @@ def check(ctx):
     from . import c16 as _c16
     for impl in _c16.IMPLS:
         _c16.fixpoint(ctx.borrowed("R8", "C16", only=("R1", "R2"), key_contains="::protocol-"), repo, impl, ctx.tier)
+    ctx.rule("R9", "message sequences end to end: on both stacks the long-lived partial-update handler, wired to the connection's own apply callback, is driven handle / handled per message with builder-made messages (two messages, an empty one in between, one position repeated within and across messages, a one-byte change): the structure receives every change once, in arrival order, and one acknowledgement is queued per message")
+    message_sequence_model(ctx, repo, "R9")
     ctx.note("Not decided: interleaving of partial updates with refreshes; an observer raising during the sync apply loop skips the for-else clear (documented residual).")
